@@ -22,5 +22,6 @@ try:
 except Exception as e: pass
 PY
 done
+mkdir -p /var/tmp/seedns/lastfail && cp $root/verif/replays/$id/fail-* /var/tmp/seedns/lastfail/ 2>/dev/null
 echo "seedrun_ns $id $(basename $(dirname $patch)) exit=$rc"
 rm -rf $root
